@@ -37,8 +37,15 @@ translated to the origin; if the clause holds there, the failure is the translat
 absolute-coordinate polynomial and gets the key roundoff:<Class>:absolute-coordinate-cancellation; otherwise the
 clause's own key is reported.
 """
+import collections
 import math
+import os
+import pickle
+import select
+import signal
 import struct
+import time
+import traceback
 
 import numpy as np
 
@@ -68,7 +75,7 @@ ASSUMPTIONS = ["wrapped functions are deterministic, finite and pure (the record
                "rounding allowance 64 eps (1+|x|max/h)^3 S as derived in DESIGN C14; clauses whose allowance exceeds "
                "1e-3 S are reported as *_weak evaluations only",
                "value bounds are finite with min <= max"]
-QUICK = dict(cases=1200, workers=2, timecap=40)
+QUICK = dict(cases=800, workers=2, timecap=40)
 THOROUGH = dict(cases=60000, workers=16, timecap=600)
 REQUIRED = {"history": 3000, "repeat": 100, "outside_raise": 300, "outside_passthrough": 300, "inside": 3000,
             "node": 1000, "multilinear": 500, "errbound": 1000, "bounds": 300}
@@ -713,7 +720,149 @@ def _translated(case):
     return t
 
 
+class _SubCtx:
+    """Ctx stand-in used inside the forked child; its content is merged into the worker's ctx by the parent."""
+
+    def __init__(self, case):
+        self.case = case
+        self.monitors = collections.Counter()
+        self.classes = collections.Counter()
+        self.skips = collections.Counter()
+        self.margins = {}
+        self.violations = []
+        self.viol_counts = collections.Counter()
+        self._nontrivial = False
+
+    def mon(self, name, n=1):
+        self.monitors[name] += n
+
+    def cls(self, name):
+        self.classes[name] += 1
+
+    def skip(self, reason):
+        self.skips[reason] += 1
+
+    def nontrivial(self, flag=True):
+        self._nontrivial = self._nontrivial or bool(flag)
+
+    def margin(self, name, ratio):
+        if ratio == ratio and ratio > self.margins.get(name, 0.0):
+            self.margins[name] = float(ratio)
+
+    def viol(self, key, what, **detail):
+        self.viol_counts[key] += 1
+        if self.viol_counts[key] <= 5:
+            self.violations.append((key, what, detail))
+
+    def check(self, ok, key, what, monitor=None, **detail):
+        self.mon(monitor or key.split(":")[0])
+        if not ok:
+            self.viol(key, what, **detail)
+        return bool(ok)
+
+
+CASE_WATCHDOG_S = 600
+
+
 def run_case(case, ctx):
+    """Every case runs in a forked child: the caching modules are compiled without bounds checks, so a wrong cell index
+    corrupts the heap and may kill the process; the parent turns the death of the child into a violation witnessed by
+    the case in flight instead of losing the whole shard (set C14_NOFORK=1 to run in-process for debugging)."""
+    if os.environ.get("C14_NOFORK"):
+        return _run_case(case, ctx)
+    import cherab.core.math  # noqa: F401  (import in the parent so that every child inherits the loaded modules)
+    rfd, wfd = os.pipe()
+    pid = os.fork()
+    if pid == 0:
+        status = 0
+        try:
+            os.close(rfd)
+            sub = _SubCtx(case)
+            harness = None
+            try:
+                _run_case(case, sub)
+            except BaseException as e:  # noqa  (classified exactly like vf.core.run_one)
+                tb = traceback.format_exc()
+                frames = traceback.extract_tb(e.__traceback__)
+                top = ""
+                for fr in reversed(frames):
+                    if "/cherab/" in fr.filename:
+                        top = os.path.basename(fr.filename) + ":" + fr.name
+                        break
+                here = os.path.dirname(os.path.dirname(os.path.abspath(__file__)))
+                if not frames or frames[-1].filename.startswith(here):
+                    harness = tb[-3000:]
+                else:
+                    sub.viol("unexpected-exception:%s@%s" % (type(e).__name__, top),
+                             "unexpected %s while executing an in-domain case: %s" % (type(e).__name__, str(e)[:300]),
+                             traceback=tb[-3000:])
+            payload = pickle.dumps(dict(monitors=dict(sub.monitors), classes=dict(sub.classes), skips=dict(sub.skips),
+                                        margins=sub.margins, violations=sub.violations, viol_counts=dict(sub.viol_counts),
+                                        nontrivial=sub._nontrivial, harness=harness))
+            with os.fdopen(wfd, "wb") as f:
+                f.write(payload)
+        except BaseException:  # noqa
+            status = 3
+        finally:
+            os._exit(status)
+    os.close(wfd)
+    chunks = []
+    t0 = time.time()
+    timed_out = False
+    with os.fdopen(rfd, "rb") as f:
+        while True:
+            ready, _, _ = select.select([f], [], [], 5.0)
+            if ready:
+                b = os.read(f.fileno(), 1 << 20)
+                if not b:
+                    break
+                chunks.append(b)
+            elif time.time() - t0 > CASE_WATCHDOG_S:
+                timed_out = True
+                os.kill(pid, signal.SIGKILL)
+                break
+    _, st = os.waitpid(pid, 0)
+    if timed_out:
+        raise RuntimeError("C14 harness: case exceeded the %d s watchdog (no verdict)" % CASE_WATCHDOG_S)
+    cname = CLS[case["dim"]]
+    if os.WIFSIGNALED(st):
+        sig = os.WTERMSIG(st)
+        try:
+            signame = signal.Signals(sig).name
+        except ValueError:
+            signame = "signal%d" % sig
+        ctx.cls("dim%d" % case["dim"])
+        ctx.viol("crash:%s:%s" % (cname, signame),
+                 "the process executing this caching case on the real %s objects was killed by %s (memory corruption in the "
+                 "unchecked index arithmetic); the wrapped function and the oracle are pure Python" % (cname, signame),
+                 signal=signame)
+        return
+    if os.WEXITSTATUS(st) != 0 or not chunks:
+        raise RuntimeError("C14 harness: child failed to report (exit status %r)" % os.WEXITSTATUS(st))
+    res = pickle.loads(b"".join(chunks))
+    if res["harness"]:
+        raise RuntimeError("C14 harness error in child:\n" + res["harness"])
+    for k, v in res["monitors"].items():
+        ctx.mon(k, v)
+    for k, v in res["classes"].items():
+        for _ in range(v):
+            ctx.cls(k)
+    for k, v in res["skips"].items():
+        for _ in range(v):
+            ctx.skip(k)
+    for k, v in res["margins"].items():
+        ctx.margin(k, v)
+    stored = collections.Counter()
+    for key, what, detail in res["violations"]:
+        ctx.viol(key, what, **detail)
+        stored[key] += 1
+    for key, n in res["viol_counts"].items():
+        ctx.viol_counts[key] += n - stored[key]
+    if res["nontrivial"]:
+        ctx.nontrivial()
+
+
+def _run_case(case, ctx):
     dim = case["dim"]
     cname = CLS[dim]
     lo, hi, res = case["lo"], case["hi"], case["res"]
